@@ -91,7 +91,8 @@ def deviations(data, tier, pairs=False):
             yield ('leb:' + t.role, 'field#%d(%s)=%d padded %d->%d bytes' % (i, t.role, t.value, orig, L), (lambda: wp.emit(hdr, secs)))
         t.length = orig
     # custom sections at every section boundary
-    names = ['', 'x', 'producers', 'name'] if tier == 'thorough' else ['', 'x', 'name']
+    # 'names' / 'name.bak' / 'nam': names that merely start like, or are a prefix of, the one custom section the translator interprets (with -g)
+    names = ['', 'x', 'producers', 'name', 'names', 'name.bak', 'nam', '.debug_x'] if tier == 'thorough' else ['', 'x', 'name', 'names', 'nam']
     payloads = [b'', b'\x01\x02\x03', bytes(range(200))] if tier == 'thorough' else [b'', b'\x01\x02\x03']   # an empty payload makes the name the last bytes of the section (and of the file at the last boundary)
     for pos in range(len(secs) + 1):
         for nm in names:
@@ -207,6 +208,7 @@ def work(job):
             res['skipped'] = 'base encoding rejected (rc=%d): %s' % (rc, err[-120:])
             return res
         seen = {hashlib.sha1(data).digest()}
+        base_g = None
         gens = [deviations(data, tier)]
         if pairs:
             def two():
@@ -244,6 +246,20 @@ def work(job):
                 elif out != base:
                     dh = [x for x in out[0] if x not in base[0]][:1] + [x for x in out[1] if x not in base[1]][:1]
                     what = 'different C definitions, e.g. %r' % (dh[0][:160] if dh else 'missing definitions')
+                # with -g the translator reads the custom section called exactly "name" (and .debug_* sections): any OTHER inserted
+                # custom section must leave the -g output unchanged as well
+                if what is None and kind == 'custom' and "custom section 'name' " not in desc and '.debug_' not in desc:
+                    if base_g is None:
+                        base_g = translate_file(w2c2, wd, data, ('-g',))
+                        res['runs'] += 1
+                    if base_g[0] == 0:
+                        rc, err, out = translate_file(w2c2, wd, b, ('-g',))
+                        res['runs'] += 1
+                        if rc != 0:
+                            what = 'with -g: rejected (rc=%d): %s' % (rc, err.strip()[-160:])
+                        elif out != base_g[2]:
+                            dh = [x for x in out[0] if x not in base_g[2][0]][:1] + [x for x in out[1] if x not in base_g[2][1]][:1]
+                            what = 'with -g: different C definitions, e.g. %r' % (dh[0][:160] if dh else 'missing definitions')
                 if what and len(res['violations']) < 6:
                     res['violations'].append((kind, desc, what, b.hex() if len(b) < 20000 else None))
                 elif what:
